@@ -2,7 +2,7 @@
 # development aid: run every check for several seeds on the current tree; print only the runs that are not quiet
 # usage: tools/sweep.sh "<seeds>" [tier] [pids...]
 seeds="$1"; tier="${2:-quick}"; shift; shift
-pids="${*:-C01 C02 C03 C04 C05 C06 C07 C08 C09 C10 C11 C13 C14 C15 C16 C17 C18 C19}"
+pids="${*:-C01 C02 C03 C04 C05 C06 C07 C08 C09 C10 C11 C12 C13 C14 C15 C16 C17 C18 C19 C20}"
 mkdir -p /root/runlogs
 for s in $seeds; do for p in $pids; do
   t0=$(date +%s)
